@@ -780,6 +780,32 @@ where
     }
 }
 
+impl TBinaryProtocol<&mut Bytes> {
+    /// Every element occupies at least one byte, so a container cannot have more
+    /// elements than there are bytes left. Decoders size their containers from
+    /// this number, so reject it before it is used.
+    #[inline]
+    fn check_container_size(&self, size: i32) -> Result<(), ThriftException> {
+        if size < 0 {
+            return Err(new_protocol_exception(
+                ProtocolExceptionKind::NegativeSize,
+                format!("negative container size {}", size),
+            ));
+        }
+        if size as usize > self.trans.len() {
+            return Err(new_protocol_exception(
+                ProtocolExceptionKind::SizeLimit,
+                format!(
+                    "container size {} exceeds the {} remaining bytes",
+                    size,
+                    self.trans.len()
+                ),
+            ));
+        }
+        Ok(())
+    }
+}
+
 impl TInputProtocol for TBinaryProtocol<&mut Bytes> {
     type Buf = Bytes;
 
@@ -936,6 +962,7 @@ impl TInputProtocol for TBinaryProtocol<&mut Bytes> {
     fn read_list_begin(&mut self) -> Result<TListIdentifier, ThriftException> {
         let element_type: TType = self.read_byte().and_then(|n| Ok(field_type_from_u8(n)?))?;
         let size = self.read_i32()?;
+        self.check_container_size(size)?;
         Ok(TListIdentifier::new(element_type, size as usize))
     }
 
@@ -948,6 +975,7 @@ impl TInputProtocol for TBinaryProtocol<&mut Bytes> {
     fn read_set_begin(&mut self) -> Result<TSetIdentifier, ThriftException> {
         let element_type: TType = self.read_byte().and_then(|n| Ok(field_type_from_u8(n)?))?;
         let size = self.read_i32()?;
+        self.check_container_size(size)?;
         Ok(TSetIdentifier::new(element_type, size as usize))
     }
 
@@ -961,6 +989,7 @@ impl TInputProtocol for TBinaryProtocol<&mut Bytes> {
         let key_type: TType = self.read_byte().and_then(|n| Ok(field_type_from_u8(n)?))?;
         let value_type: TType = self.read_byte().and_then(|n| Ok(field_type_from_u8(n)?))?;
         let size = self.read_i32()?;
+        self.check_container_size(size)?;
         Ok(TMapIdentifier::new(key_type, value_type, size as usize))
     }
 
